@@ -236,6 +236,33 @@ def mhist_units(tier):
                    "what": "match history %s (E = match expression with a return-block arm, S = match statement, cX = X inside a called function, Sc = statement arm calling cE, SE = statement arm containing E)" % " ".join(seq)}
 
 
+# ------------------------------------------------------------------------------------------ printing floats
+def flt_units(tier):
+    """println / print of float values: literals, variables, results of arithmetic, elements read from an array; the engines
+    print the shortest %g form (6 significant digits)."""
+    vals = [0.0, 1.0, 4.0, 2.5, -0.25, 100.0, 0.1, 123456.0, 1234567.0, 0.0001, 0.00001, 1e15, -3.0, 65536.5]
+    if tier != "quick":
+        vals += [1e16, 123456789.0, 0.5, 7.25, 1e-7, 99999.5, 999999.5, 33.333]
+    n = 0
+    for v in vals:
+        lit = repr(v) if "e" not in repr(v) else ("%.1f" % v if v >= 1 else "%.7f" % v)
+        val = float(lit)
+        g = "%g" % val
+        body = "    (println %s)\n" % lit
+        exp = g + "\n"
+        body += "    let f: float = %s\n    (println f)\n" % lit
+        exp += g + "\n"
+        body += "    (println (* f 1.0))\n"
+        exp += g + "\n"
+        body += "    let fs: array<float> = [f, 1.5]\n    (println (at fs 0))\n"
+        exp += g + "\n"
+        body += "    (print f)\n    (println \"\")\n"
+        exp += g + "\n"
+        body += "    return 0\n"
+        yield {"name": "flt_%d" % n, "body": body, "expected": exp, "ret": 0, "what": "printing the float %s" % lit}
+        n += 1
+
+
 def units(tier):
-    for u in itertools.chain(esc_units(tier), loop_units(tier), size_units(tier), evo_units(tier), mhist_units(tier)):
+    for u in itertools.chain(esc_units(tier), loop_units(tier), size_units(tier), evo_units(tier), mhist_units(tier), flt_units(tier)):
         yield u
